@@ -23,9 +23,13 @@ keys; AEAD: only the matching key opens (checked per run on real keys by the `pa
 `newConnectionStateFromResult` (replay-window seeding) is not modelled.
 -/
 import Nebula.Lemmas.MachineTrace
+import Nebula.Lemmas.MachinePairSys
+import Nebula.Lemmas.WindowSeed
+import Nebula.Props.C08
 
 namespace Nebula.Props.C06
 open Nebula.Wire Nebula.Machine Nebula.Spec.Handshake Nebula.Payload
+open Nebula.MachinePair Nebula.Spec.NoiseSession
 
 /-- Key orientation of every Result: completed by reading ⇒ (cs1, cs2); by writing ⇒ (cs2, cs1). -/
 theorem key_orientation (c : Cfg) (s s' : St) (len st : Nat) (rd : ReadOut) (co : CertOut) (now : Nat)
@@ -139,5 +143,143 @@ example :
     | .ok _ (some rI), .ok _ (some rR) => paired rI rR && rI.messageIndex == 2
     | _, _ => false) = true := by
   decide
+
+/-! ### the two Machines of one handshake, composed (`Model/MachinePair`) -/
+
+/-- round trip of the plaintext a side wrote (C08), for what the invariants know about it. -/
+theorem unmarshal_plaintext (E : Env) (init : Bool) (l : Nat) (hE : GoodEnv E init l) (x : Sent)
+    (h1 : x.initiatorIndex < 2 ^ 32) (h2 : x.responderIndex < 2 ^ 32) (h3 : x.time < 2 ^ 64)
+    (h4 : x.certVersion < 2 ^ 32) :
+    ∃ p, unmarshalPayload (plaintext E x) = .ok p ∧ p.initiatorIndex = x.initiatorIndex ∧
+      p.responderIndex = x.responderIndex := by
+  refine ⟨_, C08.unmarshal_marshal _ ⟨?_, h1, h2, h3, h4⟩, rfl, rfl⟩
+  show (if x.hasCert then E.certBytes x.certVersion else []).length < 2 ^ 63
+  split
+  · exact hE.cb _
+  · simp
+
+/-- COMPOSITION.  Two Machines — an initiator and a responder set up for IX, with any certificates,
+any non-zero `uint32` allocator values — each on its own Noise handshake state of a lawful Noise
+(`Lawful N`: bookkeeping + transcript agreement / read-of-write + `Split` symmetry, see
+`Spec/NoiseSession`), under EVERY schedule of the adversary (`Initiate`, relays of the messages the two
+sides wrote in any order and multiplicity, injections of arbitrary bytes with arbitrary header fields):
+if both sides have returned a Result and their channel bindings agree (they completed over the same
+session), then
+
+* the initiator's sending key is the responder's receiving key and vice versa, and the two differ;
+* each side's remote index is the other side's local index;
+* both report message count 2;
+* the local indexes are the allocators' values, hence non-zero. -/
+theorem pair_agreement {σ κ β : Type} (N : Noise σ κ β) (hN : Lawful N) (EI ER : Env) (li lr : Nat)
+    (hEI : GoodEnv EI true li) (hER : GoodEnv ER false lr) (vI vR : Nat) (nI nR : σ)
+    (hnI : N.isInit nI = true ∧ N.reads nI = [] ∧ N.writes nI = [])
+    (hnR : N.isInit nR = false ∧ N.reads nR = [] ∧ N.writes nR = [])
+    (evs : List Event) (s : Sys σ) (hs : s = run N EI ER ⟨Side.fresh vI nI, Side.fresh vR nR⟩ evs)
+    (rI rR : Result) (hI : s.i.res = some rI) (hR : s.r.res = some rR)
+    (hb : N.binding s.i.n = N.binding s.r.n) :
+    keyOf N s.i.n rI.eKey = keyOf N s.r.n rR.dKey ∧ keyOf N s.i.n rI.dKey = keyOf N s.r.n rR.eKey ∧
+    keyOf N s.i.n rI.eKey ≠ keyOf N s.i.n rI.dKey ∧
+    rI.remoteIndex = rR.localIndex ∧ rR.remoteIndex = rI.localIndex ∧
+    rI.messageIndex = 2 ∧ rR.messageIndex = 2 ∧
+    rI.localIndex = li ∧ rR.localIndex = lr ∧ rI.localIndex ≠ 0 ∧ rR.localIndex ≠ 0 := by
+  have hinv : InvI N EI li s.i ∧ InvR N ER lr s.r := by
+    rw [hs]
+    exact inv_run hN hEI hER evs ⟨Side.fresh vI nI, Side.fresh vR nR⟩
+      ⟨invI_fresh hnI.1 hnI.2.1 hnI.2.2, invR_fresh hnR.1 hnR.2.1 hnR.2.2⟩
+  clear hs
+  obtain ⟨invI, invR⟩ := hinv
+  obtain ⟨iInit, _, i3, i4, i5, i6⟩ := invI
+  obtain ⟨rInit, _, _, r4, r5⟩ := invR
+  obtain ⟨m2, p2, ireads, hp2, a1, a2, a3, a4, a5, a6⟩ := i6 rI hI
+  obtain ⟨m1, p1, s2, rreads, rwrites, hp1, b1, b2, b3, b4, b5, b6, b7, b8, b9, b10⟩ := r5 rR hR
+  -- both sides have processed two messages
+  have htR : N.total s.r.n = 2 := by simp [Noise.total, rreads, rwrites]
+  have hi1 : 1 ≤ N.total s.i.n := by simp [Noise.total, ireads]
+  obtain ⟨_, s1, iwrites, c1, c2, c3, c4, _⟩ := i4 hi1
+  have htI : N.total s.i.n = 2 := by simp [Noise.total, ireads, iwrites]
+  -- the session laws
+  obtain ⟨g1, g2⟩ := hN.agree s.i.n s.r.n iInit rInit htI htR hb
+  have hsplit := hN.split_sym s.i.n s.r.n iInit rInit htI htR hb
+  have hdist := hN.split_distinct s.i.n
+  -- message 1: what the responder read is what the initiator wrote
+  rw [iwrites, rreads] at g1
+  have hm1 : m1 = plaintext EI s1 := by simpa using g1.symm
+  obtain ⟨q1, hq1, hq1i, _⟩ := unmarshal_plaintext EI true li hEI s1 (by rw [c1]; exact hEI.lt) (by rw [c2]; decide) c3 c4
+  rw [hm1, hq1] at hp1
+  have e1 : p1 = q1 := by simpa using hp1.symm
+  have hRrem : rR.remoteIndex = li := by rw [b1, e1, hq1i, c1]
+  -- message 2: what the initiator read is what the responder wrote
+  rw [rwrites, ireads] at g2
+  have hm2 : m2 = plaintext ER s2 := by simpa using g2.symm
+  obtain ⟨q2, hq2, _, hq2r⟩ := unmarshal_plaintext ER false lr hER s2 (by rw [b3, hRrem]; exact hEI.lt)
+    (by rw [b4]; exact hER.lt) b5 b6
+  rw [hm2, hq2] at hp2
+  have e2 : p2 = q2 := by simpa using hp2.symm
+  have hIrem : rI.remoteIndex = lr := by rw [a1, e2, hq2r, b4]
+  refine ⟨?_, ?_, ?_, by rw [hIrem, b7], by rw [hRrem, a3], a4, b8, a3, b7, by rw [a3]; exact hEI.pos,
+    by rw [b7]; exact hER.pos⟩
+  · rw [a5, b10]; simp only [keyOf]; rw [hsplit]
+  · rw [a6, b9]; simp only [keyOf]; rw [hsplit]
+  · rw [a5, a6]; simp only [keyOf]; exact hdist
+
+-- non-vacuity: the toy Noise is lawful (`toy_lawful`), and an honest run over it — Initiate, relay
+-- message 1, relay message 2, with duplicates, a wrong-subtype packet, a too-short packet and garbage after
+-- completion in between — makes both
+-- sides complete with agreeing channel bindings
+example : Lawful toy := toy_lawful
+
+example :
+    (let EI : Env := { cfg := { initiator := true, subtype := 0, msgs := ixMsgs, haveCred := fun v => v == 2,
+                                credVersion := id, alloc := some 100 },
+                       certBytes := fun _ => [1, 2, 3], certOracle := fun _ ps => ⟨some (ps, 2), some "R"⟩ }
+     let ER : Env := { cfg := { initiator := false, subtype := 0, msgs := ixMsgs, haveCred := fun v => v == 2,
+                                credVersion := id, alloc := some 200 },
+                       certBytes := fun _ => [4, 5], certOracle := fun _ ps => ⟨some (ps, 2), some "I"⟩ }
+     let s := run toy EI ER ⟨Side.fresh 2 { init := true }, Side.fresh 2 { init := false }⟩
+       [.init 5, .injectToR 40 5 [9, 9, 9] 6, .injectToI 3 0 [] 6, .relayToR 0 6, .relayToR 0 6, .relayToI 0 7,
+        .relayToI 0 8, .injectToI 40 0 [7] 9]
+     match s.i.res, s.r.res with
+     | some rI, some rR => decide (toy.binding s.i.n = toy.binding s.r.n) && paired rI rR && rI.remoteIndex == 200
+     | _, _ => false) = true := by
+  decide
+
+/-! ### `newConnectionStateFromResult`: replay-window seeding (on the C11 model of bits.go) -/
+
+/-- For every `MessageIndex` below `ReplayWindow`, `newConnectionStateFromResult` succeeds, starts
+`messageCounter` at `MessageIndex` (so the first data packet is sent with `MessageIndex + 1`), and
+leaves a replay window in which exactly the counters `0..MessageIndex` — the handshake messages
+themselves — are already seen: each of them is refused by `Check`, and `MessageIndex + 1` is
+accepted.  (For IX, `MessageIndex = 2` by `pair_agreement`.) -/
+theorem window_seeded (mi : Nat) (h : mi < 8192) :
+    ∃ b, WindowSeed.seed mi = some (b, mi) ∧
+      (∀ i : Nat, i ≤ mi → Bits.check b (BitVec.ofNat 64 i) = false) ∧
+      Bits.check b (BitVec.ofNat 64 (mi + 1)) = true := by
+  obtain ⟨b, hb, r⟩ := WindowSeed.seed_refines mi h
+  refine ⟨b, hb, ?_, ?_⟩
+  · intro i hi
+    rw [Lemmas.Bits.check_refines r]
+    have hn : (BitVec.ofNat 64 i).toNat = i := by
+      simp only [BitVec.toNat_ofNat]; apply Nat.mod_eq_of_lt; omega
+    rw [hn]
+    have : (WindowSeed.specSeed 8192 mi).contains i = true := by
+      simp only [List.contains_eq_mem, decide_eq_true_eq]
+      exact (WindowSeed.specSeed_mem 8192 mi i).mpr hi
+    simp only [Spec.Window.accepts, this, Bool.not_true, Bool.false_and]
+  · rw [Lemmas.Bits.check_refines r]
+    have hn : (BitVec.ofNat 64 (mi + 1)).toNat = mi + 1 := by
+      simp only [BitVec.toNat_ofNat]; apply Nat.mod_eq_of_lt; omega
+    rw [hn]
+    have hnot : (WindowSeed.specSeed 8192 mi).contains (mi + 1) = false := by
+      simp only [List.contains_eq_mem, decide_eq_false_iff_not]
+      intro hm; have := (WindowSeed.specSeed_mem 8192 mi (mi + 1)).mp hm; omega
+    have hhi : Spec.Window.hi (WindowSeed.specSeed 8192 mi) ≤ mi :=
+      WindowSeed.hi_le_of_all_le _ _ (fun x hx => (WindowSeed.specSeed_mem 8192 mi x).mp hx)
+    simp only [Spec.Window.accepts, hnot, Bool.not_false, Bool.true_and, Bool.or_eq_true, decide_eq_true_eq]
+    left; left; omega
+
+/-- A `MessageIndex` that does not fit the window is refused (instead of spinning the seed loop). -/
+theorem window_seed_refuses (mi : Nat) (h : 8192 ≤ mi) : WindowSeed.seed mi = none := by
+  have hrw : WindowSeed.replayWindow = 8192 := by decide
+  simp [WindowSeed.seed, hrw, h]
 
 end Nebula.Props.C06
